@@ -171,3 +171,59 @@ def row_length(rep, prog, rule):
                     "a source view whose rows are longer than its width (allowed by the ImageView "
                     "contract) gets other pixels in the tail than an exact copy would" % f.name)
     rep.floor(rule, "two-row alpha routines that pair remainders", n, 4)
+
+
+def tail_complete(rep, prog, rule):
+    """the scalar tail after a chunked SIMD loop handles every remaining element"""
+    rep.rule(rule, "a row routine that walks the row in chunks of K elements (chunks_exact(K)) and "
+             "then treats the remainder handles ALL of it: the remainder has up to K - 1 elements, "
+             "so tail code that takes only its first element (`remainder.first()`, "
+             "`get(0)` / `get_mut(0)`, `[0]`) is complete only for K = 2. With a larger chunk the "
+             "other remaining pixels of every row are never written (destination rows keep stale "
+             "pixels for widths with width % K >= 2)")
+    n = 0
+    for f in sorted(prog.fns.values(), key=lambda x: x.id):
+        if f.kind == "closure" or not re.match(r"^(alpha|convolution)::\w+::(sse4|avx2|neon|wasm32|native)::", f.name):
+            continue
+        sym = None
+        chunk_of = {}
+        for c in f.calls():
+            nm = c.method or short(c.name)
+            if nm in ("chunks_exact", "chunks_exact_mut") and len(c.args) == 2:
+                sym = sym or Sym(f)
+                k = sym.operand(c.args[1], (c.bb, "term"))
+                if k[0] == "const" and isinstance(k[1], int):
+                    chunk_of[c.bb] = k[1]
+        if not chunk_of:
+            continue
+        for c in f.calls():
+            nm = c.method or short(c.name)
+            if nm not in ("first", "first_mut", "get", "get_mut") or not c.args:
+                continue
+            recv = sym.operand(c.args[0], (c.bb, "term"))
+            txt = fmt(recv)
+            if "remainder" not in txt:
+                continue
+            if nm in ("get", "get_mut"):
+                idx = sym.operand(c.args[1], (c.bb, "term")) if len(c.args) > 1 else None
+                if not (idx and idx[0] == "const" and idx[1] == 0):
+                    continue
+            m = re.search(r"chunks_exact(?:_mut)?@bb(\d+)", txt)
+            K = chunk_of.get(int(m.group(1))) if m else None
+            if K is None:
+                # the remainder of a chunk iterator kept in a local: take the only chunk size
+                ks = set(chunk_of.values())
+                K = ks.pop() if len(ks) == 1 else None
+            if K is None:
+                continue
+            n += 1
+            rep.touch(f)
+            key = "%s|%s" % (f.name, nm)
+            if K <= 2:
+                rep.ok(rule, key, c.at, "chunks of %d: at most one element remains" % K)
+            else:
+                rep.bad(rule, key + "|partial-tail", c.at,
+                        "%s walks the row in chunks of %d and handles only the first element of the "
+                        "remainder (up to %d remain): the other pixels of the tail are not written"
+                        % (f.name, K, K - 1))
+    rep.floor(rule, "single-element tails after chunked loops", n, 2)
